@@ -201,6 +201,12 @@ impl Conn {
                 self.rbuf.drain(..used);
                 return s;
             }
+            // nothing to read and the server is blocked waiting for input: no response will come
+            if unread(self.client.as_raw_fd()) == 0 {
+                if let Quiet::Blocked = self.quiescent() {
+                    if unread(self.client.as_raw_fd()) == 0 { return "TIMEOUT".into(); }
+                }
+            }
             match self.client.read(&mut tmp) {
                 Ok(0) => return "CLOSED".into(),
                 Ok(n) => self.rbuf.extend_from_slice(&tmp[..n]),
